@@ -331,7 +331,15 @@ def gen_fragment_session(rng, n_steps, tricky=True):
         r = rng.random()
         if r < 0.30:
             rid += 1
-            sp = spec(rng.choice(words), *[rng.choice(args) for _ in range(rng.choice([0, 0, 1, 2]))]) if rng.random() < 0.7 else spec("echo", f"r{rid}")
+            r2 = rng.random()
+            if r2 < 0.12:
+                sp = spec("fail", str(rng.choice([1, 2, 5, 50])), f"r{rid}")          # an ACK reply
+            elif r2 < 0.24:
+                sp = spec("bin", str(rng.choice([0, 1, 3, 20, 300])), f"r{rid}")     # a binary reply
+            elif r2 < 0.75:
+                sp = spec(rng.choice(words), *[rng.choice(args) for _ in range(rng.choice([0, 0, 1, 2]))])
+            else:
+                sp = spec("echo", f"r{rid}")
             labels.append(f"c{rid}:{sp}")
             info["requests"][rid] = ("c", [sp])
         elif r < 0.44:
